@@ -1,6 +1,7 @@
-(* The counterexample of Sched/InheritStale.v lies inside the domain of the W5 theorems
-   except for the restriction "the queued tasks hold no PriorityLock": its run contains no
-   eager start and satisfies [run_ne]. *)
+(* The states of Sched/InheritStale.v (finding F16: the pre-fix refutation starts from istX,
+   the repaired run reaches istLeft) lie inside the domain of the W5 theorems except for the
+   restriction "the queued tasks hold no PriorityLock": the run contains no eager start and
+   satisfies [run_ne]. *)
 From Coq Require Import QArith Lqa Sorting.Permutation.
 From RecordUpdate Require Import RecordUpdate.
 From Asynkit Require Import Base.Prelude Queue.PQ Queue.Order Queue.PosPQ Queue.Exec
@@ -13,16 +14,27 @@ Open Scope nat_scope.
 
 Example stale_run_ne : run_ne st0 (map act (sacts_inh ++ sacts_cancel)).
 Proof. vm_compute. repeat split; intros; discriminate. Qed.
+Example left_run_ne : run_ne st0 (map act (sacts_inh ++ sacts_cancel ++ sacts_fin)).
+Proof. vm_compute. repeat split; intros; discriminate. Qed.
 
-Example reachable_ne_istStale : reachable_ne istStale.
+Example reachable_ne_istX : reachable_ne istX.
 Proof.
   exists false, 0%Q, [], [LPrio; LPrio], [], 0, (map act (sacts_inh ++ sacts_cancel)).
   split; [|split; [apply stale_run_ne|reflexivity]].
-  apply (run_ok_app st0 _ (map act sacts_rel)). rewrite <- map_app. apply stale_run_ok.
+  apply (run_ok_app st0 _ (map act (sacts_fin ++ sacts_rel))). rewrite <- map_app, <- !app_assoc.
+  apply stale_run_ok.
+Qed.
+Example reachable_ne_istLeft : reachable_ne istLeft.
+Proof.
+  exists false, 0%Q, [], [LPrio; LPrio], [], 0, (map act (sacts_inh ++ sacts_cancel ++ sacts_fin)).
+  split; [|split; [apply left_run_ne|reflexivity]].
+  apply (run_ok_app st0 _ (map act sacts_rel)). rewrite <- map_app, <- !app_assoc. apply stale_run_ok.
 Qed.
 
-(* W1 (task 1), queued on lock 0, holds lock 1: the state is outside the restriction *)
-Example istStale_not_flat : In (3, 1) (lwt (getl istStale 0)) /\ tholding (gett istStale 1) = [1].
+(* W1 (task 1), queued on lock 0, holds lock 1: the states are outside the restriction *)
+Example istX_not_flat : In (3, 1) (lwt (getl istX 0)) /\ tholding (gett istX 1) = [1].
+Proof. split; vm_compute; auto. Qed.
+Example istLeft_not_flat : In (3, 1) (lwt (getl istLeft 0)) /\ tholding (gett istLeft 1) = [1].
 Proof. split; vm_compute; auto. Qed.
 
 (* ------------------------------------------------------------ non-vacuity of the W5 theorems *)
